@@ -21,6 +21,18 @@
 //! exactly one `Reconnecting` notice and a re-initialisation.  Stand-alone sequencers
 //! (`Binance*OrderBookL2Sequencer::validate_sequence`) are fed the same parsed inputs in lockstep;
 //! they provide the projected `{processed, lastId}` and the error value in stream mode.
+//! Mode `init` additionally runs the REAL connection establishment
+//! `<ExchangeWsStream<W> as MarketStream<X, _, OrderBooksL2>>::init::<ScriptedSnapshots>(&subs)`
+//! (barter-data/src/lib.rs: WebSocketSubscriber::subscribe -> WebSocketSubValidator::validate ->
+//! snapshot fetch -> Transformer::init -> process_buffered_events -> output queue) against a loopback
+//! websocket server inside the harness, wrapped in the same reconnect combinators.  `X` is the real
+//! Binance connector `Binance<Server>` with a harness `ExchangeServer` whose only difference is the
+//! url (so requests / expected_responses = 1 / BinanceSubResponse / validator are Binance's own);
+//! `W` delegates `init` and `transform` to the real Binance transformers.  The server sends scripted
+//! depth frames BEFORE the subscription confirmation (`pre`), the confirmation, then further frames.
+//! `--variant multi` (demonstration only, never part of the verdict) uses a harness connector with
+//! the trait-default `expected_responses = number of subscriptions`, for which frames between two
+//! confirmations are buffered (`buf`).
 use barter_data::{
     books::{Level, OrderBook},
     error::DataError,
@@ -59,7 +71,7 @@ use barter_integration::{
     },
     stream::ExchangeStream,
 };
-use futures::{FutureExt, StreamExt, stream::LocalBoxStream};
+use futures::{FutureExt, SinkExt, StreamExt, stream::LocalBoxStream};
 use rand::{Rng, prelude::IndexedRandom};
 use rust_decimal::Decimal;
 use serde_json::{Value, json};
@@ -235,9 +247,21 @@ enum Seen {
     Reconnecting,
 }
 
+/// One scripted connection: REST snapshots and the depth frames the venue sends around the
+/// subscription confirmation(s).
+struct ConnPlan {
+    snaps: Vec<MarketEvent<Key, OrderBookEvent>>,
+    /// (symbol, REST payload) - what the scripted snapshot fetcher of mode `init` returns
+    snap_payloads: Vec<(String, String)>,
+    /// frames sent before the first confirmation
+    pre: Vec<String>,
+    /// frames sent between the first and the last expected confirmation
+    buf: Vec<String>,
+}
+
 trait Link {
-    /// open the next connection with these snapshot events; returns what the consumer sees
-    fn connect(&mut self, snaps: Vec<MarketEvent<Key, OrderBookEvent>>) -> Result<Vec<Seen>, String>;
+    /// open the next connection; returns what the consumer sees
+    fn connect(&mut self, plan: ConnPlan) -> Result<Vec<Seen>, String>;
     /// one websocket text frame; returns what the consumer sees
     fn feed(&mut self, payload: String) -> Result<Vec<Seen>, String>;
 }
@@ -268,7 +292,11 @@ where
     Tr: Transformer<Error = DataError, Output = MarketEvent<Key, OrderBookEvent>, OutputIter = Vec<Out>>,
     Tr::Input: serde::de::DeserializeOwned,
 {
-    fn connect(&mut self, snaps: Vec<MarketEvent<Key, OrderBookEvent>>) -> Result<Vec<Seen>, String> {
+    fn connect(&mut self, plan: ConnPlan) -> Result<Vec<Seen>, String> {
+        if !plan.pre.is_empty() || !plan.buf.is_empty() {
+            usage("frames around the subscription confirmation need --mode init");
+        }
+        let snaps = plan.snaps;
         let rule = self.rule;
         let make = self.make;
         let tr = catch(|| make(rule.map(), &snaps))?.map_err(|e| format!("Transformer::init failed: {e}"))?;
@@ -357,7 +385,11 @@ impl Streamed {
 }
 
 impl Link for Streamed {
-    fn connect(&mut self, snaps: Vec<MarketEvent<Key, OrderBookEvent>>) -> Result<Vec<Seen>, String> {
+    fn connect(&mut self, plan: ConnPlan) -> Result<Vec<Seen>, String> {
+        if !plan.pre.is_empty() || !plan.buf.is_empty() {
+            usage("frames around the subscription confirmation need --mode init");
+        }
+        let snaps = plan.snaps;
         let (ws_tx, ws_rx) = mpsc::unbounded_channel();
         self.ws_tx = Some(ws_tx);
         self.spec_tx.send(ConnSpec { snaps, ws_rx }).map_err(|_| "pipeline dropped its connection source".to_string())?;
@@ -377,6 +409,370 @@ impl Link for Streamed {
     }
 }
 
+// ---- mode init: the real ExchangeWsStream::init over a loopback websocket ------------------------
+mod looped {
+    //! Harness-side venue: a loopback websocket server playing Binance, the harness `ExchangeServer`s
+    //! that point the REAL `Binance<Server>` connector at it, a scripted `SnapshotFetcher`, wrapper
+    //! transformers delegating to the real Binance transformers, and (demonstration only) a connector
+    //! with the trait-default `expected_responses`.
+    use super::*;
+    use async_trait::async_trait;
+    use barter_data::{
+        ExchangeWsStream, Identifier, MarketStream, SnapshotFetcher,
+        exchange::{
+            Connector, ExchangeServer,
+            binance::{Binance, subscription::BinanceSubResponse},
+            subscription::ExchangeSub,
+        },
+        instrument::InstrumentData,
+        subscriber::{WebSocketSubscriber, validator::WebSocketSubValidator},
+        subscription::SubscriptionKind,
+    };
+    use barter_integration::error::SocketError;
+    use serde::{Deserialize, Serialize};
+    use std::{
+        future::Future,
+        marker::PhantomData,
+        pin::Pin,
+        sync::{Mutex, OnceLock},
+        time::Duration,
+    };
+    use tokio::runtime::Runtime;
+
+    static RT: OnceLock<Runtime> = OnceLock::new();
+    static LOOP_URL: OnceLock<&'static str> = OnceLock::new();
+    static SCRIPTS: OnceLock<mpsc::UnboundedSender<ConnScript>> = OnceLock::new();
+    /// what the scripted REST endpoint answers: (symbol, payload)
+    static SNAPSHOTS: Mutex<Vec<(String, String)>> = Mutex::new(Vec::new());
+    /// the subscription requests the server received on its latest connection
+    pub static REQUESTS: Mutex<Vec<String>> = Mutex::new(Vec::new());
+
+    pub fn rt() -> &'static Runtime {
+        RT.get_or_init(|| tokio::runtime::Builder::new_multi_thread().worker_threads(2).enable_all().build().expect("runtime"))
+    }
+
+    // -- the venue ---------------------------------------------------------------------------------
+    pub enum Cmd {
+        Send(Vec<String>),
+    }
+
+    pub struct ConnScript {
+        pub pre: Vec<String>,
+        pub buf: Vec<String>,
+        pub confirmations: usize,
+        pub first_barrier: String,
+        pub cmd_rx: mpsc::UnboundedReceiver<Cmd>,
+    }
+
+    pub fn push_script(script: ConnScript) {
+        start_server();
+        SCRIPTS.get().expect("server").send(script).unwrap_or_else(|_| usage("loopback server is gone"));
+    }
+
+    fn start_server() {
+        if LOOP_URL.get().is_some() {
+            return;
+        }
+        let (tx, rx) = mpsc::unbounded_channel::<ConnScript>();
+        let listener = rt().block_on(tokio::net::TcpListener::bind("127.0.0.1:0")).expect("bind loopback");
+        let addr = listener.local_addr().expect("addr");
+        let _ = SCRIPTS.set(tx);
+        let _ = LOOP_URL.set(Box::leak(format!("ws://{addr}").into_boxed_str()));
+        let scripts = Arc::new(tokio::sync::Mutex::new(rx));
+        rt().spawn(async move {
+            loop {
+                let Ok((stream, _)) = listener.accept().await else { continue };
+                let _ = stream.set_nodelay(true);
+                let scripts = scripts.clone();
+                tokio::spawn(async move {
+                    let Ok(mut ws) = tokio_tungstenite::accept_async(stream).await else { return };
+                    let Some(mut script) = scripts.lock().await.recv().await else { return };
+                    // the client's SUBSCRIBE request(s): Binance sends one
+                    let Some(Ok(WsMessage::Text(request))) = ws.next().await else { return };
+                    {
+                        let mut r = REQUESTS.lock().unwrap();
+                        r.clear();
+                        r.push(request.to_string());
+                    }
+                    // depth frames may precede the confirmation; more may sit between two confirmations
+                    for f in script.pre.drain(..) {
+                        if ws.send(WsMessage::text(f)).await.is_err() { return }
+                    }
+                    for c in 0..script.confirmations {
+                        if ws.send(WsMessage::text(r#"{"result":null,"id":1}"#.to_string())).await.is_err() { return }
+                        if c == 0 {
+                            for f in script.buf.drain(..) {
+                                if ws.send(WsMessage::text(f)).await.is_err() { return }
+                            }
+                        }
+                    }
+                    if ws.send(WsMessage::text(script.first_barrier.clone())).await.is_err() { return }
+                    loop {
+                        tokio::select! {
+                            cmd = script.cmd_rx.recv() => match cmd {
+                                Some(Cmd::Send(frames)) => {
+                                    for f in frames {
+                                        if ws.send(WsMessage::text(f)).await.is_err() { return }
+                                    }
+                                }
+                                None => { let _ = ws.close(None).await; return }
+                            },
+                            msg = ws.next() => match msg {
+                                Some(Ok(_)) => {}
+                                _ => return, // the client dropped the connection
+                            },
+                        }
+                    }
+                });
+            }
+        });
+    }
+
+    fn loop_url() -> &'static str {
+        start_server();
+        LOOP_URL.get().expect("loopback url")
+    }
+
+    // -- the real Binance connector, pointed at the loopback server ---------------------------------
+    #[derive(Copy, Clone, Eq, PartialEq, Ord, PartialOrd, Hash, Debug, Default)]
+    pub struct LoopSpot;
+    impl ExchangeServer for LoopSpot {
+        const ID: ExchangeId = ExchangeId::BinanceSpot;
+        fn websocket_url() -> &'static str {
+            loop_url()
+        }
+    }
+    #[derive(Copy, Clone, Eq, PartialEq, Ord, PartialOrd, Hash, Debug, Default)]
+    pub struct LoopFutures;
+    impl ExchangeServer for LoopFutures {
+        const ID: ExchangeId = ExchangeId::BinanceFuturesUsd;
+        fn websocket_url() -> &'static str {
+            loop_url()
+        }
+    }
+
+    // -- demonstration only: same wire format, trait-default expected_responses (= subscriptions) ---
+    #[derive(Clone, Debug)]
+    pub struct MChannel(&'static str);
+    impl AsRef<str> for MChannel {
+        fn as_ref(&self) -> &str {
+            self.0
+        }
+    }
+    #[derive(Clone, Debug)]
+    pub struct MMarket(String);
+    impl AsRef<str> for MMarket {
+        fn as_ref(&self) -> &str {
+            &self.0
+        }
+    }
+    macro_rules! multi_connector {
+        ($name:ident, $id:expr) => {
+            #[derive(Copy, Clone, Eq, PartialEq, Debug, Default, Deserialize, Serialize)]
+            pub struct $name;
+            impl Connector for $name {
+                const ID: ExchangeId = $id;
+                type Channel = MChannel;
+                type Market = MMarket;
+                type Subscriber = WebSocketSubscriber;
+                type SubValidator = WebSocketSubValidator;
+                type SubResponse = BinanceSubResponse;
+                fn url() -> Result<url::Url, SocketError> {
+                    url::Url::parse(loop_url()).map_err(SocketError::UrlParse)
+                }
+                fn requests(subs: Vec<ExchangeSub<Self::Channel, Self::Market>>) -> Vec<WsMessage> {
+                    let names: Vec<String> = subs.iter().map(|s| format!("{}{}", s.market.as_ref().to_lowercase(), s.channel.as_ref())).collect();
+                    vec![WsMessage::text(json!({"method": "SUBSCRIBE", "params": names, "id": 1}).to_string())]
+                }
+                // expected_responses: the trait default, one confirmation per subscription
+            }
+            impl Identifier<MChannel> for Subscription<$name, Key, OrderBooksL2> {
+                fn id(&self) -> MChannel {
+                    MChannel("@depth@100ms")
+                }
+            }
+            impl Identifier<MMarket> for Subscription<$name, Key, OrderBooksL2> {
+                fn id(&self) -> MMarket {
+                    MMarket(format!("{}{}", self.instrument.base, self.instrument.quote).to_uppercase())
+                }
+            }
+        };
+    }
+    multi_connector!(MultiSpot, ExchangeId::BinanceSpot);
+    multi_connector!(MultiFutures, ExchangeId::BinanceFuturesUsd);
+
+    // -- scripted REST snapshots ---------------------------------------------------------------------
+    #[derive(Debug)]
+    pub struct ScriptedSnapshots;
+
+    pub fn script_snapshots(v: Vec<(String, String)>) {
+        *SNAPSHOTS.lock().unwrap() = v;
+    }
+
+    impl<X> SnapshotFetcher<X, OrderBooksL2> for ScriptedSnapshots {
+        fn fetch_snapshots<Instrument>(
+            subscriptions: &[Subscription<X, Instrument, OrderBooksL2>],
+        ) -> impl Future<Output = Result<Vec<MarketEvent<Instrument::Key, <OrderBooksL2 as SubscriptionKind>::Event>>, SocketError>> + Send
+        where
+            X: Connector,
+            Instrument: InstrumentData,
+            OrderBooksL2: SubscriptionKind,
+            <OrderBooksL2 as SubscriptionKind>::Event: Send,
+            Subscription<X, Instrument, OrderBooksL2>: Identifier<X::Market>,
+        {
+            let scripted = SNAPSHOTS.lock().unwrap().clone();
+            let events = subscriptions
+                .iter()
+                .map(|sub| {
+                    let market: X::Market = sub.id();
+                    let (_, payload) = scripted
+                        .iter()
+                        .find(|(symbol, _)| symbol == market.as_ref())
+                        .ok_or_else(|| SocketError::Subscribe(format!("no scripted snapshot for {}", market.as_ref())))?;
+                    // exactly what the Binance fetchers do with the HTTP body
+                    let snapshot: BinanceOrderBookL2Snapshot =
+                        serde_json::from_str(payload).map_err(|error| SocketError::Deserialise { error, payload: payload.clone() })?;
+                    Ok(MarketEvent::from((X::ID, sub.instrument.key().clone(), snapshot)))
+                })
+                .collect::<Result<Vec<_>, SocketError>>();
+            std::future::ready(events)
+        }
+    }
+
+    // -- wrapper transformers: the generic init sees W, all behaviour is the real transformer's -------
+    pub struct Wrap<X, T>(T, PhantomData<fn() -> X>);
+
+    impl<X, T: Transformer> Transformer for Wrap<X, T> {
+        type Error = T::Error;
+        type Input = T::Input;
+        type Output = T::Output;
+        type OutputIter = T::OutputIter;
+        fn transform(&mut self, input: Self::Input) -> Self::OutputIter {
+            self.0.transform(input)
+        }
+    }
+
+    #[async_trait]
+    impl<X: 'static> ExchangeTransformer<X, Key, OrderBooksL2> for Wrap<X, BinanceSpotOrderBooksL2Transformer<Key>> {
+        async fn init(map: Map<Key>, snaps: &[MarketEvent<Key, OrderBookEvent>], tx: mpsc::UnboundedSender<WsMessage>) -> Result<Self, DataError> {
+            let real = <BinanceSpotOrderBooksL2Transformer<Key> as ExchangeTransformer<BinanceSpot, Key, OrderBooksL2>>::init(map, snaps, tx).await?;
+            Ok(Wrap(real, PhantomData))
+        }
+    }
+
+    #[async_trait]
+    impl<X: 'static> ExchangeTransformer<X, Key, OrderBooksL2> for Wrap<X, BinanceFuturesUsdOrderBooksL2Transformer<Key>> {
+        async fn init(map: Map<Key>, snaps: &[MarketEvent<Key, OrderBookEvent>], tx: mpsc::UnboundedSender<WsMessage>) -> Result<Self, DataError> {
+            let real = <BinanceFuturesUsdOrderBooksL2Transformer<Key> as ExchangeTransformer<BinanceFuturesUsd, Key, OrderBooksL2>>::init(map, snaps, tx).await?;
+            Ok(Wrap(real, PhantomData))
+        }
+    }
+
+    // -- the consumer's stream: init_market_stream's chain around the real MarketStream::init ----------
+    pub type Consumer = Pin<Box<dyn futures::Stream<Item = Event<ExchangeId, Out>>>>;
+
+    async fn open<X, W>(rule: Rule) -> Result<Consumer, DataError>
+    where
+        X: Connector + Send + Sync + 'static,
+        W: ExchangeTransformer<X, Key, OrderBooksL2> + Send + Unpin + 'static,
+        W::Input: serde::de::DeserializeOwned,
+        Subscription<X, Key, OrderBooksL2>: Identifier<X::Channel> + Identifier<X::Market>,
+    {
+        let subs: Vec<Subscription<X, Key, OrderBooksL2>> = INSTR.iter().map(|(_, b, _)| Subscription::new(X::default(), rule.key(b), OrderBooksL2)).collect();
+        let key = StreamKey::new("market_stream", X::ID, Some("l2"));
+        let policy = ReconnectionBackoffPolicy { backoff_ms_initial: 125, backoff_multiplier: 2, backoff_ms_max: 60000 };
+        let stream = init_reconnecting_stream(move || {
+            let subs = subs.clone();
+            async move { <ExchangeWsStream<W> as MarketStream<X, Key, OrderBooksL2>>::init::<ScriptedSnapshots>(&subs).await }
+        })
+        .await?
+        .with_reconnect_backoff::<_, DataError>(policy, key)
+        .with_termination_on_error(|error: &DataError| error.is_terminal(), key)
+        .with_reconnection_events(X::ID);
+        Ok(Box::pin(stream))
+    }
+
+    pub struct InitLink {
+        rule: Rule,
+        multi: bool,
+        stream: Option<Consumer>,
+        cmd_tx: Option<mpsc::UnboundedSender<Cmd>>,
+        conn_no: u64,
+        barrier_no: u64,
+    }
+
+    impl InitLink {
+        pub fn new(rule: Rule, multi: bool) -> Self {
+            InitLink { rule, multi, stream: None, cmd_tx: None, conn_no: 0, barrier_no: 0 }
+        }
+        fn barrier(&self) -> String {
+            json!({"vh-barrier": format!("{}-{}", self.conn_no, self.barrier_no)}).to_string()
+        }
+        /// what the consumer receives up to the current barrier (or up to the reconnect notice)
+        fn pump(&mut self) -> Result<Vec<Seen>, String> {
+            let mark = format!("{}-{}", self.conn_no, self.barrier_no);
+            let stream = self.stream.as_mut().ok_or("no stream")?;
+            rt().block_on(async {
+                let mut seen = vec![];
+                loop {
+                    match tokio::time::timeout(Duration::from_secs(8), stream.next()).await {
+                        Err(_) => return Err(format!("the consumer received nothing for 8 s (waiting for barrier {mark}); so far {} item(s)", seen.len())),
+                        Ok(None) => return Err("the reconnecting stream ended".to_string()),
+                        Ok(Some(Event::Reconnecting(_))) => {
+                            seen.push(Seen::Reconnecting);
+                            return Ok(seen);
+                        }
+                        Ok(Some(Event::Item(Err(DataError::Socket(m))))) if m.contains("vh-barrier") => {
+                            if m.contains(&mark) {
+                                return Ok(seen);
+                            }
+                        }
+                        Ok(Some(Event::Item(out))) => seen.push(Seen::Item(out)),
+                    }
+                }
+            })
+        }
+    }
+
+    impl Link for InitLink {
+        fn connect(&mut self, plan: ConnPlan) -> Result<Vec<Seen>, String> {
+            script_snapshots(plan.snap_payloads);
+            let (cmd_tx, cmd_rx) = mpsc::unbounded_channel();
+            self.cmd_tx = Some(cmd_tx);
+            self.conn_no += 1;
+            self.barrier_no = 0;
+            push_script(ConnScript {
+                pre: plan.pre,
+                buf: plan.buf,
+                confirmations: if self.multi { INSTR.len() } else { 1 },
+                first_barrier: self.barrier(),
+                cmd_rx,
+            });
+            if self.stream.is_none() {
+                let (rule, multi) = (self.rule, self.multi);
+                let opened = catch(|| {
+                    rt().block_on(async move {
+                        match (rule, multi) {
+                            (Rule::Spot, false) => open::<Binance<LoopSpot>, Wrap<Binance<LoopSpot>, BinanceSpotOrderBooksL2Transformer<Key>>>(rule).await,
+                            (Rule::Futures, false) => open::<Binance<LoopFutures>, Wrap<Binance<LoopFutures>, BinanceFuturesUsdOrderBooksL2Transformer<Key>>>(rule).await,
+                            (Rule::Spot, true) => open::<MultiSpot, Wrap<MultiSpot, BinanceSpotOrderBooksL2Transformer<Key>>>(rule).await,
+                            (Rule::Futures, true) => open::<MultiFutures, Wrap<MultiFutures, BinanceFuturesUsdOrderBooksL2Transformer<Key>>>(rule).await,
+                        }
+                    })
+                })?;
+                self.stream = Some(opened.map_err(|e| format!("MarketStream::init failed: {e}"))?);
+            }
+            catch(|| self.pump())?
+        }
+        fn feed(&mut self, payload: String) -> Result<Vec<Seen>, String> {
+            self.barrier_no += 1;
+            let barrier = self.barrier();
+            self.cmd_tx.as_ref().ok_or("no connection")?.send(Cmd::Send(vec![payload, barrier])).map_err(|_| "the venue side of the connection is gone".to_string())?;
+            catch(|| self.pump())?
+        }
+    }
+}
+
 // ---------------------------------------------------------------------------------------------
 // one world under test (both modes): books, lockstep sequencers, connection state
 // ---------------------------------------------------------------------------------------------
@@ -388,7 +784,11 @@ struct Bench {
     seqs: BTreeMap<String, Sequencer>,
     conn_up: bool,
     notices: u64,
+    /// the reconnect combinators are in the loop (modes stream and init)
     mode_stream: bool,
+    mode_init: bool,
+    /// the completed world (events per instrument), to attribute emitted updates to event indices
+    world: Value,
 }
 
 fn instr_of_key(rule: Rule, key: &Key) -> Option<&'static str> {
@@ -396,19 +796,31 @@ fn instr_of_key(rule: Rule, key: &Key) -> Option<&'static str> {
 }
 
 impl Bench {
-    fn new(rule: Rule, un: Units, mode: &str) -> Bench {
+    fn new(rule: Rule, un: Units, mode: &str, multi: bool, world: &Value) -> Bench {
         let link: Box<dyn Link> = match (mode, rule) {
             ("direct", Rule::Spot) => Box::new(Direct { rule, tr: None, make: make_spot }),
             ("direct", Rule::Futures) => Box::new(Direct { rule, tr: None, make: make_futures }),
             ("stream", _) => Box::new(Streamed::new(rule)),
+            ("init", _) => Box::new(looped::InitLink::new(rule, multi)),
             (m, _) => usage(&format!("bad mode {m}")),
         };
-        Bench { rule, un, link, books: BTreeMap::new(), seqs: BTreeMap::new(), conn_up: false, notices: 0, mode_stream: mode == "stream" }
+        Bench {
+            rule, un, link, books: BTreeMap::new(), seqs: BTreeMap::new(), conn_up: false, notices: 0,
+            mode_stream: mode != "direct", mode_init: mode == "init", world: world.clone(),
+        }
     }
 
-    fn apply(&mut self, seen: Vec<Seen>) -> (Vec<String>, Option<DataError>) {
-        // what arrived, as words; updates the local books exactly as a consumer would
+    /// index of the event of `name` whose last update id is `u` (spec units), -1 if none
+    fn event_index(&self, name: &str, u: i64) -> i64 {
+        self.world[name]["events"].as_array().and_then(|evs| evs.iter().position(|e| i(e, "u") == u)).map(|p| p as i64 + 1).unwrap_or(-1)
+    }
+
+    /// What arrived: as words, and as emission items {t,i,k} in order (t = S snapshot with k = its id,
+    /// U update with k = event index, E sequence error / reconnect notice with i,k filled by the caller).
+    /// Updates the local books exactly as a consumer would.
+    fn apply(&mut self, seen: Vec<Seen>) -> (Vec<String>, Vec<Value>, Option<DataError>) {
         let mut words = vec![];
+        let mut emit = vec![];
         let mut err = None;
         for s in seen {
             match s {
@@ -421,6 +833,10 @@ impl Bench {
                         OrderBookEvent::Snapshot(_) => format!("Snapshot:{name}"),
                         OrderBookEvent::Update(_) => format!("Update:{name}"),
                     });
+                    emit.push(match &ev.kind {
+                        OrderBookEvent::Snapshot(b) => json!({"t": "S", "i": name, "k": self.un.id_out(b.sequence)}),
+                        OrderBookEvent::Update(b) => json!({"t": "U", "i": name, "k": self.event_index(name, self.un.id_out(b.sequence))}),
+                    });
                     let book = self.books.entry(name.to_string()).or_default();
                     if let Err(p) = catch(|| book.update(ev.kind)) {
                         words.push(format!("Panic:{p}"));
@@ -428,6 +844,7 @@ impl Bench {
                 }
                 Seen::Item(Err(e)) => {
                     words.push("Err".into());
+                    emit.push(json!({"t": "E", "i": "?", "k": 0}));
                     if e.is_terminal() && !self.mode_stream {
                         // without the combinators the terminal error itself is the break
                         self.conn_up = false;
@@ -437,44 +854,82 @@ impl Bench {
                 }
                 Seen::Reconnecting => {
                     words.push("Reconnecting".into());
+                    emit.push(json!({"t": "E", "i": "?", "k": 0}));
                     self.conn_up = false;
                     self.notices += 1;
                 }
             }
         }
-        (words, err)
+        (words, emit, err)
     }
 
-    /// (Re)connect with snapshots `snap[i]` / `books[i]` (spec units). Returns anomaly if any.
-    fn connect(&mut self, snap: &Value, books: &Value) -> Option<String> {
+    fn frame(&self, f: &Value) -> (String, String) {
+        let name = s(f, "i");
+        let symbol = INSTR.iter().find(|(n, _, _)| *n == name).unwrap_or_else(|| usage("instrument")).2;
+        let ev = &self.world[name]["events"][(i(f, "k") - 1) as usize];
+        (name.to_string(), update_payload(self.rule, self.un, symbol, ev))
+    }
+
+    /// (Re)connect with snapshots `snap[i]` / `books[i]` (spec units); `pre` / `buf` = frames [{i,k}] the
+    /// venue sends before the first / between the first and last subscription confirmation (mode init).
+    /// Returns (anomaly, what the consumer received in order).
+    fn connect(&mut self, snap: &Value, books: &Value, pre: &Value, buf: &Value) -> (Option<String>, Vec<Value>) {
         let snaps: Vec<_> = INSTR.iter().map(|(n, b, _)| snapshot_event(self.rule, self.un, b, i(snap, n), &books[*n])).collect();
+        let snap_payloads = INSTR.iter().map(|(n, _, sym)| (sym.to_string(), snapshot_payload(self.rule, self.un, i(snap, n), &books[*n]))).collect();
         for (n, _, _) in INSTR {
             self.seqs.insert(n.to_string(), Sequencer::new(self.rule, self.un.base + i(snap, n) as u64));
         }
-        match self.link.connect(snaps) {
-            Err(p) => Some(format!("panic: {p}")),
+        let frames = |v: &Value| -> Vec<(String, String)> { v.as_array().map(|a| a.iter().map(|f| self.frame(f)).collect()).unwrap_or_default() };
+        let (pre_f, buf_f) = (frames(pre), frames(buf));
+        // the stand-alone sequencers see the buffered frames in order (until one errors); frames sent
+        // before the first confirmation never reach a transformer
+        let mut failed: Option<(String, i64)> = None;
+        for (f, (name, payload)) in buf.as_array().cloned().unwrap_or_default().iter().zip(&buf_f) {
+            if failed.is_none() && self.seqs.get_mut(name).expect("sequencer").feed(payload).is_err() {
+                failed = Some((name.clone(), i(f, "k")));
+            }
+        }
+        let plan = ConnPlan { snaps, snap_payloads, pre: pre_f.into_iter().map(|x| x.1).collect(), buf: buf_f.into_iter().map(|x| x.1).collect() };
+        match self.link.connect(plan) {
+            Err(p) => (Some(format!("panic / failure: {p}")), vec![]),
             Ok(seen) => {
                 self.conn_up = true;
-                let (words, _) = self.apply(seen);
-                let mut expect: Vec<String> = INSTR.iter().map(|(n, _, _)| format!("Snapshot:{n}")).collect();
-                let mut got = words.clone();
-                expect.sort();
-                got.sort();
-                (got != expect).then(|| format!("connection start showed {words:?} instead of one snapshot per instrument"))
+                let (words, mut emit, _) = self.apply(seen);
+                for it in emit.iter_mut().filter(|it| it["t"] == "E") {
+                    if let Some((n, k)) = &failed {
+                        it["i"] = json!(n);
+                        it["k"] = json!(k);
+                    }
+                }
+                let mut anomaly = None;
+                if words.iter().any(|w| w.starts_with("Panic") || w == "ForeignInstrument") {
+                    anomaly = Some(format!("connection start showed {words:?}"));
+                }
+                if self.mode_init {
+                    let req = looped::REQUESTS.lock().unwrap().join(" ");
+                    if !INSTR.iter().all(|(_, _, sym)| req.contains(&format!("{}@depth@100ms", sym.to_lowercase()))) {
+                        anomaly = Some(format!("the subscription request does not name the depth streams of both instruments: {req}"));
+                    }
+                }
+                (anomaly, emit)
             }
         }
     }
 
-    /// Deliver event `ev` of instrument `name`. Returns (out, err, terminal).
-    fn deliver(&mut self, name: &str, ev: &Value) -> (String, String, bool) {
+    /// Deliver event `k` = `ev` of instrument `name`. Returns (out, err, terminal, emitted items).
+    fn deliver(&mut self, name: &str, k: i64, ev: &Value) -> (String, String, bool, Vec<Value>) {
         let symbol = INSTR.iter().find(|(n, _, _)| *n == name).unwrap_or_else(|| usage("instrument")).2;
         let payload = update_payload(self.rule, self.un, symbol, ev);
         let side = self.seqs.get_mut(name).expect("sequencer").feed(&payload);
         let seen = match self.link.feed(payload) {
             Ok(s) => s,
-            Err(p) => return (format!("Anomaly: panic: {p}"), "none".into(), false),
+            Err(p) => return (format!("Anomaly: panic / failure: {p}"), "none".into(), false, vec![]),
         };
-        let (words, err) = self.apply(seen);
+        let (words, mut emit, err) = self.apply(seen);
+        for it in emit.iter_mut().filter(|it| it["t"] == "E") {
+            it["i"] = json!(name);
+            it["k"] = json!(k);
+        }
         let out = match words.iter().map(|s| s.as_str()).collect::<Vec<_>>().as_slice() {
             [] if self.mode_stream && side.is_err() => {
                 "Anomaly: the sequence error reached the consumer neither as an item nor as a Reconnecting notice".to_string()
@@ -497,9 +952,9 @@ impl Bench {
             Err(_) => "Error".to_string(),
         };
         if !out.starts_with("Anomaly") && side_out != out {
-            return (format!("Anomaly: transformer outcome {out} but stand-alone sequencer outcome {side_out}"), ename, term);
+            return (format!("Anomaly: transformer outcome {out} but stand-alone sequencer outcome {side_out}"), ename, term, emit);
         }
-        (out, ename, term)
+        (out, ename, term, emit)
     }
 
     fn post(&self) -> Value {
@@ -520,8 +975,15 @@ fn variant(e: &DataError) -> String {
     }
 }
 
-fn line(a: &str, i_: &str, k: i64, out: &str, err: &str, term: bool, world: Value, snap: Value, post: Value) -> Value {
-    json!({"a": a, "i": i_, "k": k, "out": out, "err": err, "term": term, "world": world, "snap": snap, "post": post})
+/// one trace line (every line carries every field: TLC reads them as records)
+#[allow(clippy::too_many_arguments)]
+fn line(a: &str, i_: &str, k: i64, out: &str, err: &str, term: bool, world: Value, snap: Value, pre: &Value, buf: &Value, emit: &[Value], post: Value) -> Value {
+    json!({"a": a, "i": i_, "k": k, "out": out, "err": err, "term": term, "world": world, "snap": snap,
+           "pre": pre, "buf": buf, "emit": emit, "post": post})
+}
+
+fn reset_line(rule: Rule, expected: i64, world: &Value) -> Value {
+    line("Reset", "", 0, "", "none", false, trace_world(rule, expected, world), json!(0), &json!([]), &json!([]), &[], json!(0))
 }
 
 /// scenarios over one instrument get a second, idle instrument (the transformer always serves two)
@@ -544,7 +1006,7 @@ fn complete_snap(snap: &Value, books: &Value) -> (Value, Value) {
     }
     (s, b)
 }
-fn trace_world(rule: Rule, world: &Value) -> Value {
+fn trace_world(rule: Rule, expected: i64, world: &Value) -> Value {
     let mut chg = serde_json::Map::new();
     let mut cut = serde_json::Map::new();
     let mut events = serde_json::Map::new();
@@ -555,7 +1017,7 @@ fn trace_world(rule: Rule, world: &Value) -> Value {
     }
     // (`events` = the payload contents actually sent; the trace specification recomputes them from
     //  chg / cut and ignores this field - it only serves replays)
-    json!({"rule": rule.name(), "chg": chg, "cut": cut, "events": events})
+    json!({"rule": rule.name(), "expected": expected, "chg": chg, "cut": cut, "events": events})
 }
 
 #[derive(Default)]
@@ -566,24 +1028,41 @@ struct Counts {
     reinit: usize,
     first_admitted: usize,
     longest_chain: usize,
+    connect: usize,
+    pre_frames: usize,
+    buffered_frames: usize,
 }
 
 // ---------------------------------------------------------------------------------------------
 // run: TLC scenarios
 // ---------------------------------------------------------------------------------------------
+fn by_instr(emit: &[Value]) -> Value {
+    let mut m = serde_json::Map::new();
+    for (n, _, _) in INSTR {
+        m.insert(n.to_string(), Value::Array(emit.iter().filter(|e| e["i"] == *n).cloned().collect()));
+    }
+    Value::Object(m)
+}
+
 fn run(args: &Args) {
     let scns = read_ndjson(args.req("scenarios"));
     let mode = args.str("mode", "direct");
+    let multi = args.str("variant", "binance") == "multi";
     let mut results = Out_::create(args.req("results"));
     let mut trace = Out_::create(args.req("trace"));
     let mut rng = rng(args.u64("seed", 1));
     let mut counts = Counts::default();
-    let (mut failed, mut steps_n) = (0usize, 0usize);
+    let (mut failed, mut steps_n, mut init_failures) = (0usize, 0usize, 0usize);
     for (n, scn) in scns.iter().enumerate() {
         let rule = Rule::of(s(scn, "rule"));
+        let expected = scn.get("expected").and_then(|x| x.as_i64()).unwrap_or(1);
+        if (expected != 1) != multi {
+            usage("scenarios with expected = 2 need --mode init --variant multi (and vice versa)");
+        }
         let un = Units::draw(&mut rng);
         let world = complete_world(&scn["world"]);
-        let mut bench = Bench::new(rule, un, &mode);
+        let mut bench = Bench::new(rule, un, &mode, multi, &world);
+        trace.line(&reset_line(rule, expected, &world));
         let mut verdict = json!({"scn": n, "ok": true});
         let mut chain = 0usize;
         for (k, step) in scn["steps"].as_array().unwrap_or_else(|| usage("steps")).iter().enumerate() {
@@ -592,26 +1071,44 @@ fn run(args: &Args) {
             match s(step, "a") {
                 a @ ("Init" | "Reinit") => {
                     let (snap, books) = complete_snap(&step["snap"], &step["books"]);
+                    let buf = step.get("buf").cloned().unwrap_or(json!([]));
+                    // frames before the first confirmation: the validator discards them, so any will do
+                    let pre_frames = match step.get("pre") {
+                        Some(p) => p.clone(),
+                        None if mode == "init" => random_frames(&mut rng, &world),
+                        None => json!([]),
+                    };
                     let pre = bench.post();
-                    let anomaly = bench.connect(&snap, &books);
+                    let (anomaly, emit) = bench.connect(&snap, &books, &pre_frames, &buf);
                     chain = 0;
+                    counts.connect += 1;
+                    counts.pre_frames += pre_frames.as_array().map(|a| a.len()).unwrap_or(0);
+                    counts.buffered_frames += buf.as_array().map(|a| a.len()).unwrap_or(0);
                     if a == "Reinit" {
                         counts.reinit += 1;
                     }
                     let post = bench.post();
-                    trace.line(&line(if a == "Init" { "Reset" } else { "Reinit" }, "", 0, anomaly.as_deref().map(|_| "Anomaly").unwrap_or(""), anomaly.as_deref().unwrap_or("none"),
-                                     false, if a == "Init" { trace_world(rule, &world) } else { json!(0) }, snap.clone(), post.clone()));
+                    trace.line(&line("Connect", "", 0, anomaly.as_deref().map(|_| "Anomaly").unwrap_or(""), anomaly.as_deref().unwrap_or("none"),
+                                     false, json!(0), snap.clone(), &pre_frames, &buf, &emit, post.clone()));
                     if let Some(an) = anomaly {
+                        if an.contains("MarketStream::init failed") {
+                            init_failures += 1;
+                        }
                         verdict = fail(an, pre);
                         break;
                     }
-                    if step.get("unchecked").is_some() {
-                        continue;
+                    let Some(after) = step.get("after") else { continue }; // replay rebuilt from a trace
+                    // what the consumer holds and has received once the connection is established
+                    let mut expect = after.clone();
+                    let mut expect_emit = step["emit"].clone();
+                    for (nm, _, _) in INSTR {
+                        if expect["book"].get(nm).is_none() {
+                            expect["book"][nm] = json!({"bids": [], "asks": [], "seq": 0});
+                            expect["sq"][nm] = json!({"processed": 0, "lastId": 0});
+                            expect_emit[nm] = json!([{"t": "S", "i": nm, "k": 0}]);
+                        }
                     }
-                    // the books the consumer holds are the snapshots; sequencers start at the snapshot ids
-                    let expect_sq: serde_json::Map<String, Value> =
-                        INSTR.iter().map(|(nm, _, _)| (nm.to_string(), json!({"processed": 0, "lastId": i(&snap, nm)}))).collect();
-                    if let Err(e) = json_match(&json!({"book": books, "sq": expect_sq, "conn": "up", "notices": post["notices"]}), &post, "post") {
+                    if let Err(e) = json_match(&expect, &post, "post").and_then(|_| json_match(&expect_emit, &by_instr(&emit), "emitted")) {
                         verdict = fail(e, pre);
                         break;
                     }
@@ -620,9 +1117,9 @@ fn run(args: &Args) {
                     let (nm, kk) = (s(step, "i"), i(step, "k"));
                     let ev = &world[nm]["events"][(kk - 1) as usize];
                     let pre = bench.post();
-                    let (out, err, term) = bench.deliver(nm, ev);
+                    let (out, err, term, emit) = bench.deliver(nm, kk, ev);
                     let post = bench.post();
-                    trace.line(&line("Deliver", nm, kk, &out, &err, term, json!(0), json!(0), post.clone()));
+                    trace.line(&line("Deliver", nm, kk, &out, &err, term, json!(0), json!(0), &json!([]), &json!([]), &emit, post.clone()));
                     match &out[..] {
                         "Dropped" => counts.dropped += 1,
                         "Admitted" => {
@@ -664,10 +1161,27 @@ fn run(args: &Args) {
             failed += 1;
         }
         results.line(&verdict);
+        if init_failures >= 3 {
+            break; // the connection cannot be established at all (each attempt waits for the validation timeout)
+        }
     }
     results.finish();
     let lines = trace.finish();
     println!("{}", summary(&mode, scns.len(), steps_n, failed, lines, &counts));
+}
+
+/// a few depth frames [{i,k}] of the world, for the venue to send before the confirmation
+fn random_frames<R: Rng>(rng: &mut R, world: &Value) -> Value {
+    let n = [0, 0, 1, 2, 3][rng.random_range(0..5)];
+    Value::Array(
+        (0..n)
+            .map(|_| {
+                let name = INSTR[rng.random_range(0..INSTR.len())].0;
+                let n_ev = world[name]["events"].as_array().map(|a| a.len()).unwrap_or(1).max(1);
+                json!({"i": name, "k": rng.random_range(1..=n_ev)})
+            })
+            .collect(),
+    )
 }
 
 use vh::util::Out as Out_;
@@ -675,7 +1189,8 @@ use vh::util::Out as Out_;
 fn summary(mode: &str, scenarios: usize, steps: usize, failed: usize, lines: usize, c: &Counts) -> Value {
     json!({"mode": mode, "scenarios": scenarios, "steps": steps, "failed": failed, "trace_lines": lines,
            "arms": {"dropped": c.dropped, "admitted": c.admitted, "error": c.error, "reinit": c.reinit,
-                    "first_updates_admitted": c.first_admitted, "longest_admitted_chain": c.longest_chain}})
+                    "first_updates_admitted": c.first_admitted, "longest_admitted_chain": c.longest_chain,
+                    "connections": c.connect, "frames_before_confirmation": c.pre_frames, "frames_buffered": c.buffered_frames}})
 }
 
 // ---------------------------------------------------------------------------------------------
@@ -795,7 +1310,8 @@ fn random(args: &Args) {
         for (n, e) in &evs {
             world[*n] = json!({"chg": e.chg, "cut": e.cut, "events": e.events});
         }
-        let mut bench = Bench::new(rule, un, &mode);
+        let mut bench = Bench::new(rule, un, &mode, false, &world);
+        trace.line(&reset_line(rule, 1, &world));
         let mut chain: BTreeMap<&str, usize> = Default::default();
         let mut budget = 110usize;
         let mut first = true;
@@ -810,10 +1326,12 @@ fn random(args: &Args) {
                 books[*n] = e.truth[s_id as usize].clone();
                 chain.insert(n, 0);
             }
-            let anomaly = bench.connect(&snap, &books);
-            let wtrace = if first { trace_world(rule, &world) } else { json!(0) };
-            trace.line(&line(if first { "Reset" } else { "Reinit" }, "", 0, anomaly.as_deref().map(|_| "Anomaly").unwrap_or(""), anomaly.as_deref().unwrap_or("none"),
-                             false, wtrace, snap.clone(), bench.post()));
+            let pre_frames = if mode == "init" { random_frames(&mut rng, &world) } else { json!([]) };
+            let (anomaly, emit) = bench.connect(&snap, &books, &pre_frames, &json!([]));
+            counts.connect += 1;
+            counts.pre_frames += pre_frames.as_array().map(|a| a.len()).unwrap_or(0);
+            trace.line(&line("Connect", "", 0, anomaly.as_deref().map(|_| "Anomaly").unwrap_or(""), anomaly.as_deref().unwrap_or("none"),
+                             false, json!(0), snap.clone(), &pre_frames, &json!([]), &emit, bench.post()));
             if !first {
                 counts.reinit += 1;
             }
@@ -839,8 +1357,8 @@ fn random(args: &Args) {
                 steps_n += 1;
                 let which = rng.random_range(0..plans.len());
                 let (name, k) = (plans[which].0, plans[which].1.remove(0));
-                let (out, err, term) = bench.deliver(name, &evs[name].events[k - 1]);
-                trace.line(&line("Deliver", name, k as i64, &out, &err, term, json!(0), json!(0), bench.post()));
+                let (out, err, term, emit) = bench.deliver(name, k as i64, &evs[name].events[k - 1]);
+                trace.line(&line("Deliver", name, k as i64, &out, &err, term, json!(0), json!(0), &json!([]), &json!([]), &emit, bench.post()));
                 match &out[..] {
                     "Dropped" => counts.dropped += 1,
                     "Admitted" => {
@@ -871,9 +1389,10 @@ fn main() {
     // The driver polls the real stream pipeline by hand (`now_or_never`), outside of any tokio task:
     // inside a task tokio's cooperative budget would make its channels report Pending spuriously.
     // The runtime is only entered so that timers (reconnect backoff) would have a (paused) clock.
-    let rt = tokio::runtime::Builder::new_current_thread().enable_time().start_paused(true).build().expect("runtime");
-    let _guard = rt.enter();
+    // (mode init talks to a real loopback socket: it owns a real-time runtime, see `looped::rt`)
     let args = Args::parse();
+    let rt = tokio::runtime::Builder::new_current_thread().enable_time().start_paused(true).build().expect("runtime");
+    let _guard = (args.str("mode", "direct") != "init").then(|| rt.enter());
     match args.cmd.as_str() {
         "run" => run(&args),
         "random" => random(&args),
